@@ -189,6 +189,67 @@ pub fn sites(thorough: bool) -> Vec<Site> {
             );
         };
     }
+    // the same refusals must not depend on the translation offset handed over with the range (related arguments: offsets
+    // that make min + translation wrap while max + translation does not, and the other way round; and util::value_set)
+    macro_rules! aspace_tr {
+        ($t:ty, $name:expr, $bits:expr) => {{
+            fn cases() -> Vec<($t, $t, Option<$t>)> {
+                let m = <$t>::MAX;
+                let mut v: Vec<($t, $t, Option<$t>)> = vec![(0x10, 0x1f, Some(0x100)), (0x10, 0x1f, Some(m - 0x0f))];
+                for (min, max) in [(10 as $t, 9 as $t), (0x2000, 0x1000), (m, 0), (m, m - 1), (1, 0), ((m >> 1) + 1, m >> 1), (0, m)] {
+                    let mut trs: Vec<$t> = vec![0, 1];
+                    for base in [min, max, min / 2 + max / 2] {
+                        for d in [0 as $t, 1, 2] {
+                            trs.push((0 as $t).wrapping_sub(base).wrapping_add(d));
+                            trs.push((0 as $t).wrapping_sub(base).wrapping_sub(d));
+                        }
+                    }
+                    trs.push(max.wrapping_sub(min));
+                    trs.push(min.wrapping_sub(max));
+                    trs.extend(crate::util::value_set($bits, 0x0807_0605_0403_0201u64 & (m as u64), true).into_iter().map(|x| x as $t));
+                    trs.sort();
+                    trs.dedup();
+                    for t in trs {
+                        v.push((min, max, Some(t)));
+                    }
+                }
+                v
+            }
+            let n = cases().len() as u64;
+            let reject: Vec<u64> = (2..n).collect();
+            for kind in 0..3u8 {
+                add(
+                    match kind { 0 => concat!($name, " (io)"), 1 => concat!($name, " (memory)"), _ => concat!($name, " (bus number)") },
+                    1,
+                    &reject,
+                    false,
+                    Box::new(move |i| {
+                        let (min, max, tr) = cases()[i as usize];
+                        match kind {
+                            0 => ser(&AddressSpace::<$t>::new_io(min, max, tr)),
+                            1 => ser(&AddressSpace::<$t>::new_memory(AddressSpaceCacheable::NotCacheable, true, min, max, tr)),
+                            _ => ser(&AddressSpace::<$t>::new_bus_number(min, max)),
+                        }
+                    }),
+                    Box::new(|b, i| {
+                        let w = std::mem::size_of::<$t>();
+                        if b.len() != 6 + 5 * w {
+                            return Err(format!("descriptor has {} bytes", b.len()));
+                        }
+                        let rd = |o: usize| -> u128 { let mut x = 0u128; for k in 0..w { x |= (b[o + k] as u128) << (8 * k); } x };
+                        let (min, max, len) = (rd(6 + w), rd(6 + 2 * w), rd(6 + 4 * w));
+                        if max < min || len != max - min + 1 {
+                            return Err(format!("case {:?}: min {:#x} max {:#x} but length field {:#x}", cases()[i as usize], min, max, len));
+                        }
+                        Ok(())
+                    }),
+                );
+            }
+        }};
+    }
+    aspace_tr!(u16, "Word address space, unrepresentable range with a translation", 16);
+    aspace_tr!(u32, "DWord address space, unrepresentable range with a translation", 32);
+    aspace_tr!(u64, "QWord address space, unrepresentable range with a translation", 64);
     aspace!(u16, "Word address space range size");
     aspace!(u32, "DWord address space range size");
     aspace!(u64, "QWord address space range size");
